@@ -203,7 +203,22 @@ def coq_op(op):
         return '(%s %s)' % ({'nget': 'NGet', 'ndel': 'NDel'}[k], coq_strs(op[1]))
     if k == 'nset':
         return '(NSet %s %s)' % (coq_strs(op[1]), coq_tree(op[2]))
-    return {'yfile': 'OYamlFile', 'ytext': 'OYamlText'}[k]
+    return {'yfile': 'OYamlFile', 'ytext': 'OYamlText'}[k] + ('' if export_in_place() else 'Pure')
+
+
+_PROBE = []
+
+
+def export_in_place():
+    """Does exporting convert the values of nested dicts of the live config in place?  C18 is silent on it
+    (C19 covers it); the model has both forms and the one the code shows is used."""
+    if not _PROBE:
+        from emd.sift import SiftConfig
+        c = SiftConfig('sift')
+        c.store['a'] = {'t': (1, 2)}
+        c.to_yaml_text()
+        _PROBE.append(type(c.store['a']['t']) is list)
+    return _PROBE[0]
 
 
 def coq_case(case):
@@ -376,6 +391,10 @@ def oracle_edit(cfg, op, workdir):
         try:
             r = yaml_roundtrip(a, k, workdir)
         except Exception as e:  # noqa
+            import traceback
+            fr = [f.name for f in traceback.extract_tb(e.__traceback__)]
+            if 'to_yaml_file' in fr or 'to_yaml_text' in fr:
+                site = 'SiftConfig.to_yaml_file' if k == 'yfile' else 'SiftConfig.to_yaml_text'
             return [(site, 'write/read raised %s: %s' % (type(e).__name__, str(e)[:120]))]
         if r.sift_type != cfg.sift_type:
             fails.append((site, 'sift type %r came back as %r' % (cfg.sift_type, r.sift_type)))
@@ -522,7 +541,10 @@ def corpus():
     s = default_store('sift')
     m = default_store('mask_sift')
     arr2 = ['A', [['A', [['f', '1.0'], ['f', '2.5']]], ['A', [['f', '3.0'], ['f', '0.1']]]]]
+    s_none = ['D', [[k, ['n'] if k == 'extrema_opts' else v] for k, v in s[1]]]   # extrema_opts=None: sift's own default
     return [
+        dict(ctype='sift', store=s, ops=[('ytext',)]),
+        dict(ctype='sift', store=s_none, ops=[('yfile',), ('ytext',), ('get', 'extrema_opts'), ('set', 'imf_opts', ['n']), ('yfile',)]),
         dict(ctype='sift', store=s, ops=[('get', 'imf_opts/sd_thresh'), ('set', 'imf_opts/sd_thresh', ['f', '0.05']),
                                         ('nget', ['imf_opts', 'sd_thresh']), ('ytext',), ('yfile',), ('del', 'imf_opts/sd_thresh'),
                                         ('get', 'imf_opts/sd_thresh'), ('nget', ['imf_opts'])]),
@@ -565,6 +587,10 @@ def flat(o):
     return repr(a.shape).encode() + a.tobytes()
 
 
+def how(r, ref):
+    return 'the same outcome kind but different output' if r[0] == ref[0] else '%s instead of %s' % (r[0], ref[0])
+
+
 def call(f, seed=11):
     np.random.seed(seed)
     try:
@@ -580,7 +606,7 @@ EDITS = {
     'sift': [[('max_imfs', ['i', 3])], [('imf_opts/stop_method', ['s', 'rilling']), ('imf_opts/rilling_thresh', ['T', [['f', '0.05'], ['f', '0.5'], ['f', '0.1']]])],
              [('imf_opts/stop_method', ['s', 'fixed']), ('imf_opts/max_iters', ['i', 5])], [('imf_opts/sd_thresh', ['f', '0.05']), ('imf_opts/env_step_size', ['f', '0.5'])],
              [('envelope_opts/interp_method', ['s', 'mono_pchip'])], [('extrema_opts/pad_width', ['i', 3]), ('extrema_opts/parabolic_extrema', ['b', 1])],
-             [('extrema_opts/mag_pad_opts/stat_length', ['i', 2])], [('sift_thresh', ['f', '1e-06']), ('imf_opts/energy_thresh', ['i', 40])]],
+             [('extrema_opts/mag_pad_opts/stat_length', ['i', 2])], [('extrema_opts', ['n']), ('envelope_opts', ['n'])], [('sift_thresh', ['f', '1e-06']), ('imf_opts/energy_thresh', ['i', 40])]],
     'mask_sift': [[('mask_freqs', ['T', [['f', '0.2'], ['f', '0.1'], ['f', '0.05']]])], [('mask_freqs', ['A', [['f', '0.2'], ['f', '0.1'], ['f', '0.05']]]), ('mask_amp', ['A', [['f', '1.0'], ['f', '2.5'], ['f', '0.5']]])],
                   [('max_imfs', ['i', 3]), ('nphases', ['i', 2]), ('mask_amp_mode', ['s', 'ratio_sig'])], [('mask_freqs', ['f', '0.15']), ('ret_mask_freq', ['b', 1]), ('max_imfs', ['i', 4])],
                   [('imf_opts/stop_method', ['s', 'rilling']), ('imf_opts/rilling_thresh', ['T', [['f', '0.05'], ['f', '0.5'], ['f', '0.1']]]), ('max_imfs', ['i', 3])]],
@@ -602,21 +628,28 @@ def behaviour(variant, edits, sig, routes=('yfile', 'ytext'), workdir='/tmp'):
                         ('get_config(variant).get_func()(x)', lambda: S.get_config(variant).get_func()(x))):
             r = call(g)
             if r != ref:
-                fails.append(('get_config', '%s: %s gives %s, %s(x) gives %s' % (variant, name, r[0], variant, ref[0])))
+                fails.append(('get_config', '%s: %s differs from %s(x): %s' % (variant, name, variant, how(r, ref))))
     else:
         for k, v in edits:
-            cfg[k] = build(v)
+            try:
+                cfg[k] = build(v)
+            except Exception as e:  # noqa
+                return [('SiftConfig.__setitem__', '%s: writing %r into the default configuration raised %s' % (variant, k, type(e).__name__))]
     ref = call(lambda: f(x, **cfg))
     if ref[0] == 'timeout':
         return fails
     r = call(lambda: cfg.get_func()(x))
     if r != ref:
-        fails.append(('SiftConfig.get_func', '%s %s: get_func()(x) gives %s, %s(x, **config) gives %s' % (variant, edits, r[0], variant, ref[0])))
+        fails.append(('SiftConfig.get_func', '%s %s: get_func()(x) differs from %s(x, **config): %s' % (variant, edits, variant, how(r, ref))))
     for route in routes:
         site = 'SiftConfig.from_yaml_file' if route == 'yfile' else 'SiftConfig.from_yaml_stream'
         try:
             back = yaml_roundtrip(copy.deepcopy(cfg), route, workdir)
         except Exception as e:  # noqa
+            import traceback
+            fr = [f.name for f in traceback.extract_tb(e.__traceback__)]
+            if 'to_yaml_file' in fr or 'to_yaml_text' in fr:
+                site = 'SiftConfig.to_yaml_file' if route == 'yfile' else 'SiftConfig.to_yaml_text'
             fails.append((site, '%s %s: write/read raised %s' % (variant, edits, type(e).__name__)))
             continue
         if back.sift_type != variant or not same_options(cfg.store, back.store):
@@ -625,7 +658,7 @@ def behaviour(variant, edits, sig, routes=('yfile', 'ytext'), workdir='/tmp'):
             continue
         r = call(lambda: back.get_func()(x))
         if r != ref:
-            fails.append((site, '%s %s: the re-read config\'s callable gives %s, the original %s' % (variant, edits, r[0], ref[0])))
+            fails.append((site, '%s %s: the re-read config\'s callable differs from the original call: %s' % (variant, edits, how(r, ref))))
     return fails
 
 
@@ -650,7 +683,7 @@ def run(ctx):
     ctx.proof()
     work = ctx.work
     r = ctx.rng
-    cases = corpus() + [rcase(r) for _ in range(200 if ctx.quick() else 5000)]
+    cases = corpus() + [rcase(r) for _ in range(300 if ctx.quick() else 5000)]
     traces, reported = [], set()
     for case in cases:
         tr, fails = run_history(case, work)
@@ -667,7 +700,7 @@ def run(ctx):
                 small = shrink(case, n, site, work)
                 ctx.problem('impl-violation', site, what, input=dict(kind='history', case=small), observed=what,
                             expected='the property (path == nested indexing; only the addressed entry changes; YAML keeps type and options)')
-    for c in cases[:2] + cases[5:7]:
+    for c in cases[2:4] + cases[7:9]:
         ctx.sample(dict(ctype=c['ctype'], ops=[list(o) for o in c['ops']][:6], store_keys=[k for k, _ in c['store'][1]][:8]))
     model = ctx.model_outputs(IMPORTS, [coq_case(c) for c in cases], 'fun c => run_ops_h (fst c) (snd c)', shard=100)
     brk = None
@@ -706,6 +739,9 @@ def run(ctx):
                         ctx.problem('impl-violation', site, what, input=dict(kind='behaviour', variant=v, edits=edits, signal=sig),
                                     observed=what, expected='identical output from the plain call, the unpacked config, get_func() and the re-read config')
     ctx.extra['variants'] = VARIANTS
+    ctx.extra['export_converts_nested_values_in_place'] = export_in_place()
+    ctx.notes.append('YAML export %s the live configuration below the first level (tuples/arrays -> lists); C18 does not '
+                     'constrain this, the model form matching the code was used' % ('converts' if export_in_place() else 'does not touch'))
 
 
 def jcase(case):
